@@ -21,6 +21,12 @@ def load_prop(prop):
 
 
 def run_shard(mod, ctx):
+    if '-W' in os.environ.get('VERIF_FLAVOUR', ''):
+        # the diagnostics flavour: warnings are errors AND the embedding application has logging configured at DEBUG
+        # (root logger, a handler that swallows the text) - a debug line on a hot path must not change what is decoded
+        import io
+        import logging
+        logging.basicConfig(level=logging.DEBUG, stream=io.StringIO(), force=True)
     core.repo_import_check()
     from vlib import interference
     warmed = interference.warm_up()
